@@ -34,7 +34,7 @@ pub fn raw_linking(code: &str) -> &'static [&'static str] {
         "en" => &["and", "plus", "minus", "so", "then", "uh", "well", "is", "ok", "yes"],
         "fr" => &["et", "plus", "moins", "puis", "euh", "alors", "encore", "bien", "oui", "voilà", "c'est"],
         "es" => &["y", "pues", "menos", "mas", "entonces", "luego", "pero", "vale", "son", "con", "no"],
-        "pt" => &["e", "mais", "menos", "então", "bem", "mas", "agora", "são", "com", "não", "ou"],
+        "pt" => &["e", "mais", "menos", "então", "bem", "mas", "agora", "são", "com", "não", "ou", "outra", "vez", "tarde", "aí", "está", "um"],
         "it" => &["e", "più", "meno", "poi", "ancora", "ehm", "è", "ben"],
         "de" => &["und", "aber", "also", "auch", "noch", "dann", "ja", "so", "genau", "äh", "mal"],
         "nl" => &["en", "plus", "min", "dus", "dan", "dat", "is", "ja", "uh"],
